@@ -235,6 +235,7 @@ func (r *realCache) apply(t failer, op cacheOp, fam []*term) []evRec {
 func cacheCheckStep(t failer, prop string, rc *realCache, m *cacheModel, fam []*term, op cacheOp) (changed bool, nevents int) {
 	traceOp("%s", op)
 	before := rc.content(t)
+	acceptBefore := m.accept
 	var exp map[string]expect
 	switch op.Kind {
 	case "update":
@@ -245,6 +246,7 @@ func cacheCheckStep(t failer, prop string, rc *realCache, m *cacheModel, fam []*
 		m.accept = fam[op.Filter].eval
 		exp = m.predictSync(op.List)
 	}
+	acceptNow := m.accept
 	evs := rc.apply(t, op, fam)
 	after := rc.content(t)
 	if prop == "C01" {
@@ -271,6 +273,10 @@ func cacheCheckStep(t failer, prop string, rc *realCache, m *cacheModel, fam []*
 		m.items = next
 		if msg := checkDelta(before, after, evs); msg != "" {
 			t.Fatalf("C02 violation: %s: %s", op, msg)
+		}
+		// the inputs the statement names as changing nothing must emit no event at all
+		if why := c02NoopInput(op, before, acceptBefore, acceptNow); why != "" && len(evs) != 0 {
+			t.Fatalf("C02 violation: %s is %s and must change nothing, but %d events were emitted: %v (content before: %s)", op, why, len(evs), evs, fmtContent(before))
 		}
 	}
 	changed = len(before) != len(after)
@@ -569,3 +575,42 @@ func (f *enumFailer) Fatalf(format string, args ...interface{}) {
 
 func TestC01_Enum(t *testing.T) { cacheEnum(t, "C01") }
 func TestC02_Enum(t *testing.T) { cacheEnum(t, "C02") }
+
+// c02NoopInput classifies the inputs that the C02 statement lists as changing
+// nothing: a redelivered or stale version of a cached object, a delete of an
+// unknown key, a rejected unknown object, an unchanged relist.  It returns a
+// description, or "" when the operation is none of these.
+func c02NoopInput(op cacheOp, before map[string]metav1.Object, acceptBefore, acceptNow func(metav1.Object) bool) string {
+	switch op.Kind {
+	case "update":
+		k := objKey(op.Obj)
+		cur, found := before[k]
+		v, numeric := parseVersion(op.Obj)
+		if !numeric {
+			return ""
+		}
+		if op.Type == kcache.EventTypeDelete {
+			if !found {
+				return "a delete of an unknown key"
+			}
+			return ""
+		}
+		if found && v <= objVersion(cur) {
+			return "a redelivered or stale version of a cached object"
+		}
+		if !found && !acceptNow(op.Obj) {
+			return "a rejected unknown object"
+		}
+	case "sync":
+		if len(op.List) != len(before) {
+			return ""
+		}
+		for _, o := range op.List {
+			if before[objKey(o)] != o {
+				return ""
+			}
+		}
+		return "an unchanged relist"
+	}
+	return ""
+}
